@@ -1,14 +1,14 @@
 (* C20 at code level: the share-range helpers of share/range.go as printed into the REGENERATED
    GoLite program (Gen/Generated.v, from the Go source on every run) compute what the hand-written
    model computes (Helpers.range_is_empty, Helpers.range_add).  Statements only; proofs in
-   GenMoreProofs.v.
+   GenMoreBase GenMoreC20.v.
 
    A Range is its two ints [Start; End]; Add has a pointer receiver, so its (empty) result list is
    followed by the two fields after the call. *)
 From Coq Require Import List ZArith String.
 From GS.Model Require Import Base Helpers GoLite.
 From GS.Gen Require Import Generated.
-From GS.GenProofs Require Import GenLink GenMoreProofs.
+From GS.GenProofs Require Import GenLink GenMoreBase GenMoreC20.
 Open Scope string_scope. Open Scope Z_scope.
 
 (* the model's Go-int wrap-around is literally GoLite's wrap at int64 *)
